@@ -211,13 +211,17 @@ func Main(tb *testing.T, e *Engine) {
 		out.Error = "unknown mode " + job.Mode
 	}
 	out.WallS = time.Since(start).Seconds()
+	if err := writeOut(&job, out); err != nil {
+		tb.Fatal(err)
+	}
+}
+
+func writeOut(job *Job, out *Out) error {
 	b, _ := json.Marshal(out)
 	if err := os.WriteFile(job.Out+".tmp", b, 0o644); err != nil {
-		tb.Fatal(err)
+		return err
 	}
-	if err := os.Rename(job.Out+".tmp", job.Out); err != nil {
-		tb.Fatal(err)
-	}
+	return os.Rename(job.Out+".tmp", job.Out)
 }
 
 func crumb(f *os.File, c int) {
@@ -227,6 +231,7 @@ func crumb(f *os.File, c int) {
 }
 
 func runRange(tb *testing.T, e *Engine, job *Job, out *Out) {
+	t0 := time.Now()
 	nEnum := 0
 	if e.NumEnum != nil {
 		nEnum = e.NumEnum(job.Property, job.Tier)
@@ -306,6 +311,11 @@ func runRange(tb *testing.T, e *Engine, job *Job, out *Out) {
 	for _, k := range keys {
 		out.Found = append(out.Found, *found[k])
 	}
+	// The results are on disk before anything else is done: what follows is
+	// illustration only, and the driver uses this output should it not finish.
+	out.WallS = time.Since(t0).Seconds()
+	writeOut(job, out)
+	crumb(cf, -2)
 	// Render a few of the cases actually explored.
 	if job.Worker == 0 || job.Workers > 1<<20 {
 		for _, c := range sampleCases {
